@@ -1,50 +1,475 @@
 (* C16: text writer / reader round trip, column order, limits *)
-From Coq Require Import List ZArith NArith Arith Bool Lia.
+From Coq Require Import List ZArith NArith Arith Bool Lia Permutation.
 From MsmV Require Import Lib.Result Lib.PyList Lib.Sorting Model.TextIO.
 Import ListNotations.
 Local Open Scope nat_scope.
 
+(* ------------------------------------------------------------------ *)
+(* helpers: split_on                                                   *)
+(* ------------------------------------------------------------------ *)
+Lemma split_on_app_nosep p a rest cur :
+  (forall b, In b a -> p b = false) ->
+  split_on p (a ++ rest) cur = split_on p rest (rev a ++ cur).
+Proof.
+  revert cur; induction a as [|x a IH]; intros cur Ha; [reflexivity|].
+  cbn [app split_on]. rewrite (Ha x (or_introl eq_refl)).
+  rewrite IH by (intros b Hb; apply Ha; right; exact Hb).
+  cbn [rev]. rewrite <- app_assoc. reflexivity.
+Qed.
+
+Lemma split_on_nosep p a : (forall b, In b a -> p b = false) -> split_on p a [] = [a].
+Proof.
+  intros Ha. rewrite <- (app_nil_r a) at 1. rewrite split_on_app_nosep by exact Ha.
+  cbn [split_on]. rewrite app_nil_r, rev_involutive. reflexivity.
+Qed.
+
+Lemma split_on_app_sep p a s rest :
+  (forall b, In b a -> p b = false) -> p s = true ->
+  split_on p (a ++ s :: rest) [] = a :: split_on p rest [].
+Proof.
+  intros Ha Hs. rewrite split_on_app_nosep by exact Ha.
+  cbn [split_on]. rewrite Hs, app_nil_r, rev_involutive. reflexivity.
+Qed.
+
+(* ------------------------------------------------------------------ *)
+(* helpers: decimal rendering                                          *)
+(* ------------------------------------------------------------------ *)
+Definition isdig (b : byte) : Prop := is_digit b = true.
+
+Lemma size_nat_mono n m : (n <= m)%N -> N.size_nat n <= N.size_nat m.
+Proof.
+  intros Hle. destruct n as [|p], m as [|q]; cbn [N.size_nat]; try lia.
+  destruct (Pos.eq_dec p q) as [->|Hne]; [lia|].
+  apply Pos.size_nat_monotone. lia.
+Qed.
+
+Lemma size_nat_div2 n : n <> 0%N -> S (N.size_nat (N.div2 n)) = N.size_nat n.
+Proof. destruct n as [|[p|p|]]; intros Hn; try congruence; reflexivity. Qed.
+
+Lemma size_nat_div10 n : n <> 0%N -> S (N.size_nat (n / 10)) <= N.size_nat n.
+Proof.
+  intros Hn. rewrite <- (size_nat_div2 n Hn). apply le_n_S, size_nat_mono.
+  rewrite N.div2_div. apply N.div_le_compat_l. lia.
+Qed.
+
+Lemma digit_byte_ok n : (n < 10)%N ->
+  isdig (b0 + N.to_nat n) /\ N.of_nat (b0 + N.to_nat n - b0) = n.
+Proof.
+  intros Hn. split.
+  - unfold isdig, is_digit, b0. apply andb_true_iff; split; apply Nat.leb_le; lia.
+  - lia.
+Qed.
+
+Lemma digits_go_spec fuel : forall n acc, N.size_nat n <= fuel ->
+  exists ds, digits_go fuel n acc = ds ++ acc /\ Forall isdig ds /\ (n <> 0%N -> ds <> []) /\
+             forall rest, parse_digits (ds ++ rest) 0%N = parse_digits rest n.
+Proof.
+  induction fuel as [|f IH]; intros n acc Hsz.
+  - assert (Hn : n = 0%N) by (destruct n; [reflexivity|cbn in Hsz; destruct p; cbn in Hsz; lia]).
+    subst n. exists []. cbn [digits_go app]. repeat split; auto; congruence.
+  - cbn [digits_go]. destruct (N.eqb_spec n 0) as [->|Hn].
+    + exists []. cbn [app]. repeat split; auto; congruence.
+    + pose proof (size_nat_div10 n Hn) as Hd.
+      destruct (IH (n / 10)%N ((b0 + N.to_nat (n mod 10)) :: acc)) as (ds & Heq & Hdig & _ & Hval); [lia|].
+      assert (Hlt : (n mod 10 < 10)%N) by (apply N.mod_lt; lia).
+      destruct (digit_byte_ok _ Hlt) as [Hd1 Hd2].
+      exists (ds ++ [b0 + N.to_nat (n mod 10)]). split; [|split; [|split]].
+      * rewrite Heq, <- app_assoc. reflexivity.
+      * apply Forall_app; split; [exact Hdig|constructor; [exact Hd1|constructor]].
+      * intros _ Hnil. apply app_eq_nil in Hnil. destruct Hnil as [_ Hnil]; discriminate.
+      * intros rest. rewrite <- app_assoc. cbn [app]. rewrite Hval.
+        cbn [parse_digits]. unfold isdig in Hd1. rewrite Hd1, Hd2.
+        f_equal. rewrite (N.div_mod n 10) at 3 by lia. lia.
+Qed.
+
+Lemma render_N_spec n :
+  render_N n <> [] /\ Forall isdig (render_N n) /\ parse_digits (render_N n) 0%N = Some n.
+Proof.
+  unfold render_N. destruct (N.eqb_spec n 0) as [->|Hn].
+  - split; [discriminate|]. split; [|reflexivity]. constructor; [reflexivity|constructor].
+  - destruct (digits_go_spec (S (N.size_nat n)) n []) as (ds & Heq & Hdig & Hne & Hval); [lia|].
+    rewrite Heq, app_nil_r. split; [auto|]. split; [exact Hdig|].
+    specialize (Hval []). rewrite app_nil_r in Hval. exact Hval.
+Qed.
+
+Lemma isdig_facts b : isdig b ->
+  Nat.eqb b bMINUS = false /\ Nat.eqb bDOT b = false /\ is_eol b = false /\ is_ws b = false /\
+  Nat.eqb b bHASH = false.
+Proof.
+  unfold isdig, is_digit, is_eol, is_ws, b0, bMINUS, bDOT, bLF, bCR, bSP, bTAB, bHASH.
+  intros Hb. apply andb_true_iff in Hb. destruct Hb as [H1 H2].
+  apply Nat.leb_le in H1. apply Nat.leb_le in H2.
+  repeat split; try apply orb_false_iff; repeat split; apply Nat.eqb_neq; lia.
+Qed.
+
 (* PRIORITY 1: a number written in any of the three formats is read back *)
+Lemma parse_num_digits (neg : bool) ds fp n :
+  ds <> [] -> Forall isdig ds -> parse_digits ds 0%N = Some n ->
+  fp = [] \/ fp = [bDOT; b0; b0; b0; b0; b0] ->
+  parse_num ((if neg then [bMINUS] else []) ++ ds ++ fp)
+  = Some (if neg then (- Z.of_N n)%Z else Z.of_N n).
+Proof.
+  intros Hne Hdig Hval Hfp.
+  assert (Hnodot : forall b, In b ds -> Nat.eqb bDOT b = false).
+  { intros b Hb. rewrite Forall_forall in Hdig. apply (isdig_facts b (Hdig b Hb)). }
+  assert (Hbody : parse_num ((if neg then [bMINUS] else []) ++ ds ++ fp) =
+          match split_on (Nat.eqb bDOT) (ds ++ fp) [] with
+          | [ip] => match ip, parse_digits ip 0%N with
+                    | _ :: _, Some n => Some (if neg then (- Z.of_N n)%Z else Z.of_N n)
+                    | _, _ => None end
+          | [ip; fp] => match ip, parse_digits ip 0%N, forallb (Nat.eqb b0) fp with
+                        | _ :: _, Some n, true => Some (if neg then (- Z.of_N n)%Z else Z.of_N n)
+                        | _, _, _ => None end
+          | _ => None
+          end).
+  { unfold parse_num. destruct neg.
+    - cbn [app]. change (Nat.eqb bMINUS bMINUS) with true. cbv iota. reflexivity.
+    - cbn [app]. destruct ds as [|d ds']; [congruence|]. cbn [app].
+      assert (Hd : Nat.eqb d bMINUS = false).
+      { apply isdig_facts. inversion Hdig; assumption. }
+      rewrite Hd. reflexivity. }
+  rewrite Hbody. destruct Hfp as [->| ->].
+  - rewrite app_nil_r, split_on_nosep by exact Hnodot. cbv beta iota.
+    destruct ds; [congruence|]. rewrite Hval. reflexivity.
+  - rewrite split_on_app_sep; [|exact Hnodot|reflexivity].
+    change (split_on (Nat.eqb bDOT) [b0; b0; b0; b0; b0] []) with [[b0; b0; b0; b0; b0]].
+    cbv beta iota. destruct ds; [congruence|]. rewrite Hval. reflexivity.
+Qed.
+
+Lemma render_num_shape f z :
+  render_num f z = (if Z.ltb z 0 then [bMINUS] else []) ++ render_N (Z.abs_N z) ++
+                   match f with F5 => [bDOT; b0; b0; b0; b0; b0] | _ => [] end.
+Proof.
+  unfold render_num, render_Z. destruct f; rewrite ?app_nil_r, <- ?app_assoc; reflexivity.
+Qed.
+
 Lemma parse_render_num f z : parse_num (render_num f z) = Some z.
-Proof. TODO. Qed.
+Proof.
+  rewrite render_num_shape.
+  destruct (render_N_spec (Z.abs_N z)) as (Hne & Hdig & Hval).
+  rewrite (parse_num_digits _ _ _ _ Hne Hdig Hval) by (destruct f; auto).
+  f_equal. rewrite N2Z.inj_abs_N. destruct (Z.ltb_spec z 0); lia.
+Qed.
 
 (* PRIORITY 2: whatever integer table is written (with any header lines free of line
    ends) is read back identically; comment lines are ignored *)
 Definition no_eol (l : list byte) : Prop := forall b, In b l -> is_eol b = false.
+
+Definition numbyte (b : byte) : Prop := isdig b \/ b = bMINUS \/ b = bDOT.
+
+Lemma numbyte_facts b : numbyte b ->
+  is_eol b = false /\ is_ws b = false /\ Nat.eqb b bHASH = false.
+Proof.
+  intros [Hd|[->| ->]]; [|repeat split; reflexivity..].
+  destruct (isdig_facts b Hd) as (_ & _ & H1 & H2 & H3). auto.
+Qed.
+
+Lemma render_num_bytes f z b : In b (render_num f z) -> numbyte b.
+Proof.
+  rewrite render_num_shape. intros Hb.
+  destruct (render_N_spec (Z.abs_N z)) as (_ & Hdig & _). rewrite Forall_forall in Hdig.
+  apply in_app_or in Hb. destruct Hb as [Hb|Hb].
+  - destruct (Z.ltb z 0); [|destruct Hb]. destruct Hb as [<-|[]]. right; left; reflexivity.
+  - apply in_app_or in Hb. destruct Hb as [Hb|Hb]; [left; apply Hdig; exact Hb|].
+    destruct f; cbn [In] in Hb; try tauto.
+    destruct Hb as [<-|Hb]; [right; right; reflexivity|].
+    left. repeat (destruct Hb as [<-|Hb]; [reflexivity|]). destruct Hb.
+Qed.
+
+Lemma render_num_nonempty f z : render_num f z <> [].
+Proof.
+  rewrite render_num_shape. intros Hnil.
+  apply app_eq_nil in Hnil. destruct Hnil as [_ Hnil].
+  apply app_eq_nil in Hnil. destruct Hnil as [Hnil _].
+  apply (proj1 (render_N_spec (Z.abs_N z))). exact Hnil.
+Qed.
+
+Lemma join_In b sep parts : In b (join sep parts) -> In b sep \/ exists p, In p parts /\ In b p.
+Proof.
+  induction parts as [|p parts IH]; [intros []|].
+  destruct parts as [|q parts].
+  - cbn [join]. intros Hb. right. exists p. split; [left; reflexivity|exact Hb].
+  - change (join sep (p :: q :: parts)) with (p ++ sep ++ join sep (q :: parts)).
+    intros Hb. apply in_app_or in Hb. destruct Hb as [Hb|Hb].
+    + right. exists p. split; [left; reflexivity|exact Hb].
+    + apply in_app_or in Hb. destruct Hb as [Hb|Hb]; [left; exact Hb|].
+      destruct (IH Hb) as [H|(p' & Hp' & Hbp')]; [left; exact H|].
+      right. exists p'. split; [right; exact Hp'|exact Hbp'].
+Qed.
+
+Definition row_line (f : fmt) (r : list Z) : list byte := join [bSP] (map (render_num f) r).
+
+Lemma row_line_bytes f r b : In b (row_line f r) -> numbyte b \/ b = bSP.
+Proof.
+  intros Hb. apply join_In in Hb. destruct Hb as [[<-|[]]|(p & Hp & Hbp)]; [right; reflexivity|].
+  apply in_map_iff in Hp. destruct Hp as (z & <- & _). left. apply (render_num_bytes f z b Hbp).
+Qed.
+
+Lemma row_line_no_eol f r : no_eol (row_line f r).
+Proof.
+  intros b Hb. destruct (row_line_bytes f r b Hb) as [Hn| ->]; [|reflexivity].
+  apply numbyte_facts. exact Hn.
+Qed.
+
+Lemma lines_of_line l rest : no_eol l -> lines_of (l ++ bLF :: rest) = l :: lines_of rest.
+Proof. intros Hl. unfold lines_of. apply split_on_app_sep; [exact Hl|reflexivity]. Qed.
+
+Lemma lines_of_header hl rest : (forall l, In l hl -> no_eol l) ->
+  lines_of (render_header hl ++ rest) = map (fun l => bHASH :: bSP :: l) hl ++ lines_of rest.
+Proof.
+  induction hl as [|l hl IH]; intros Hhl; [reflexivity|].
+  replace (render_header (l :: hl) ++ rest)
+    with ((bHASH :: bSP :: l) ++ bLF :: (render_header hl ++ rest))
+    by (unfold render_header; cbn [map concat]; rewrite <- ?app_assoc; reflexivity).
+  rewrite lines_of_line.
+  - cbn [map app]. f_equal. apply IH. intros l' Hl'. apply Hhl. right. exact Hl'.
+  - intros b [<-|[<-|Hb]]; [reflexivity|reflexivity|]. apply (Hhl l (or_introl eq_refl) b Hb).
+Qed.
+
+Lemma lines_of_rows f table rest :
+  lines_of (concat (map (render_row f) table) ++ rest) = map (row_line f) table ++ lines_of rest.
+Proof.
+  induction table as [|r table IH]; [reflexivity|].
+  replace (concat (map (render_row f) (r :: table)) ++ rest)
+    with (row_line f r ++ bLF :: (concat (map (render_row f) table) ++ rest))
+    by (cbn [map concat]; unfold render_row, row_line; rewrite <- ?app_assoc; reflexivity).
+  rewrite lines_of_line by apply row_line_no_eol.
+  cbn [map app]. f_equal. exact IH.
+Qed.
+
+Lemma lines_of_render f hl table : (forall l, In l hl -> no_eol l) ->
+  lines_of (render f hl table)
+  = map (fun l => bHASH :: bSP :: l) hl ++ map (row_line f) table ++ [[]].
+Proof.
+  intros Hhl. unfold render. rewrite (lines_of_header hl _ Hhl).
+  rewrite <- (app_nil_r (concat (map (render_row f) table))), lines_of_rows. reflexivity.
+Qed.
+
+Lemma strip_comment_id l : (forall b, In b l -> Nat.eqb b bHASH = false) ->
+  strip_comment [bHASH] l = l.
+Proof.
+  induction l as [|x l IH]; intros Hl; [reflexivity|].
+  cbn [strip_comment existsb]. rewrite (Hl x (or_introl eq_refl)). cbn [orb].
+  f_equal. apply IH. intros b Hb. apply Hl. right. exact Hb.
+Qed.
+
+Lemma tokens_join parts :
+  (forall p, In p parts -> p <> [] /\ forall b, In b p -> is_ws b = false) ->
+  tokens (join [bSP] parts) = parts.
+Proof.
+  induction parts as [|p parts IH]; intros Hparts; [reflexivity|].
+  destruct (Hparts p (or_introl eq_refl)) as [Hpne Hpws].
+  destruct parts as [|q parts].
+  - cbn [join]. unfold tokens. rewrite split_on_nosep by exact Hpws.
+    destruct p; [congruence|reflexivity].
+  - change (join [bSP] (p :: q :: parts)) with (p ++ bSP :: join [bSP] (q :: parts)).
+    unfold tokens. rewrite split_on_app_sep; [|exact Hpws|reflexivity].
+    cbn [filter]. replace (negb (Nat.eqb (length p) 0)) with true by (destruct p; [congruence|reflexivity]).
+    f_equal. apply IH. intros p' Hp'. apply Hparts. right. exact Hp'.
+Qed.
+
+Lemma row_tokens f r : tokens (strip_comment [bHASH] (row_line f r)) = map (render_num f) r.
+Proof.
+  rewrite strip_comment_id.
+  - apply tokens_join. intros p Hp. apply in_map_iff in Hp. destruct Hp as (z & <- & _).
+    split; [apply render_num_nonempty|].
+    intros b Hb. apply numbyte_facts. apply (render_num_bytes f z b Hb).
+  - intros b Hb. destruct (row_line_bytes f r b Hb) as [Hn| ->]; [|reflexivity].
+    apply numbyte_facts. exact Hn.
+Qed.
+
+Lemma all_some_parse_row f r : all_some (map parse_num (map (render_num f) r)) = Some r.
+Proof.
+  induction r as [|z r IH]; [reflexivity|].
+  cbn [map all_some]. rewrite parse_render_num, IH. reflexivity.
+Qed.
+
+Lemma all_some_parse_rows f table :
+  all_some (map (fun r => all_some (map parse_num r)) (map (map (render_num f)) table)) = Some table.
+Proof.
+  induction table as [|r table IH]; [reflexivity|].
+  cbn [map all_some]. rewrite all_some_parse_row, IH. reflexivity.
+Qed.
+
+Lemma header_rows_dropped hl :
+  filter (fun r : list (list byte) => negb (Nat.eqb (length r) 0))
+    (map (fun l => tokens (strip_comment [bHASH] l)) (map (fun l => bHASH :: bSP :: l) hl)) = [].
+Proof. induction hl as [|l hl IH]; [reflexivity|]. cbn [map]. exact IH. Qed.
+
+Lemma data_rows_kept f table : (forall r, In r table -> 1 <= length r) ->
+  filter (fun r : list (list byte) => negb (Nat.eqb (length r) 0))
+    (map (fun l => tokens (strip_comment [bHASH] l)) (map (row_line f) table))
+  = map (map (render_num f)) table.
+Proof.
+  induction table as [|r table IH]; intros Hlen; [reflexivity|].
+  cbn [map filter]. rewrite row_tokens, map_length.
+  pose proof (Hlen r (or_introl eq_refl)) as Hr.
+  destruct r as [|z r]; [cbn in Hr; lia|]. cbn [length Nat.eqb negb].
+  f_equal. apply IH. intros r' Hr'. apply Hlen. right. exact Hr'.
+Qed.
+
 Lemma roundtrip f header_lines table ncols :
   (forall l, In l header_lines -> no_eol l) ->
   table <> [] -> 1 <= ncols -> (forall r, In r table -> length r = ncols) ->
   parse_table [bHASH] (render f header_lines table) = Ok table.
-Proof. TODO. Qed.
+Proof.
+  intros Hhl Hne Hn Hrect. unfold parse_table. cbv zeta.
+  rewrite (lines_of_render f header_lines table Hhl).
+  rewrite !map_app, !filter_app, header_rows_dropped.
+  rewrite data_rows_kept by (intros r Hr; rewrite (Hrect r Hr); exact Hn).
+  cbn [app]. replace (filter _ (map _ [[]])) with (@nil (list (list byte))) by reflexivity.
+  rewrite app_nil_r, all_some_parse_rows.
+  destruct table as [|r0 table]; [congruence|].
+  replace (forallb _ (r0 :: table)) with true; [reflexivity|].
+  symmetry. apply forallb_forall. intros r Hr. apply Nat.eqb_eq.
+  rewrite (Hrect r Hr), (Hrect r0 (or_introl eq_refl)). reflexivity.
+Qed.
 
 (* PRIORITY 3: requested columns come back in the requested order *)
+Lemma nth_list_upd_eq {A} (l : list A) i v d : i < length l -> nth i (list_upd l i v) d = v.
+Proof. revert i; induction l as [|x xs IH]; intros [|i] H; simpl in *; try lia; [reflexivity|apply IH; lia]. Qed.
+Lemma nth_list_upd_ne {A} (l : list A) i j v d : i <> j -> nth j (list_upd l i v) d = nth j l d.
+Proof.
+  revert i j; induction l as [|x xs IH]; intros [|i] [|j] H; simpl; try reflexivity; try lia.
+  apply IH. lia.
+Qed.
+
+Lemma ins_sorted_perm x l : Permutation (x :: l) (ins_sorted x l).
+Proof.
+  induction l as [|y t IH]; cbn [ins_sorted]; [reflexivity|].
+  destruct (Nat.ltb (fst x) (fst y)); [reflexivity|].
+  rewrite perm_swap. constructor. exact IH.
+Qed.
+
+Lemma fold_ins_perm l : forall acc,
+  Permutation (l ++ acc) (fold_left (fun acc x => ins_sorted x acc) l acc).
+Proof.
+  induction l as [|x l IH]; intros acc; cbn [fold_left app]; [reflexivity|].
+  rewrite <- IH. rewrite Permutation_middle. apply Permutation_app_head, ins_sorted_perm.
+Qed.
+
+Lemma map_snd_combine {A B} (l : list A) (l' : list B) :
+  length l = length l' -> map snd (combine l l') = l'.
+Proof.
+  revert l'; induction l as [|x l IH]; intros [|y l'] H; cbn in *; try congruence.
+  f_equal. apply IH. lia.
+Qed.
+
+Lemma argsort_nat_perm cols : Permutation (seq 0 (length cols)) (argsort_nat cols).
+Proof.
+  unfold argsort_nat. rewrite <- fold_ins_perm, app_nil_r, map_snd_combine; [reflexivity|].
+  rewrite seq_length. reflexivity.
+Qed.
+
+Lemma argsort_nat_length cols : length (argsort_nat cols) = length cols.
+Proof. rewrite <- (Permutation_length (argsort_nat_perm cols)). apply seq_length. Qed.
+
+Lemma fold_upd_length (pos : nat -> nat) (val : nat -> Z) ms : forall out,
+  length (fold_left (fun out m => list_upd out (pos m) (val m)) ms out) = length out.
+Proof.
+  induction ms as [|m ms IH]; intros out; cbn [fold_left]; [reflexivity|].
+  rewrite IH. apply list_upd_length.
+Qed.
+
+Lemma fold_upd_untouched (pos : nat -> nat) (val : nat -> Z) j ms : forall out,
+  ~ In j (map pos ms) ->
+  nth j (fold_left (fun out m => list_upd out (pos m) (val m)) ms out) 0%Z = nth j out 0%Z.
+Proof.
+  induction ms as [|m ms IH]; intros out Hj; cbn [fold_left]; [reflexivity|].
+  cbn [map In] in Hj. rewrite IH by tauto. apply nth_list_upd_ne. tauto.
+Qed.
+
+Lemma fold_upd_written (pos : nat -> nat) (val : nat -> Z) ms : forall out m,
+  NoDup (map pos ms) -> (forall k, In k ms -> pos k < length out) -> In m ms ->
+  nth (pos m) (fold_left (fun out m => list_upd out (pos m) (val m)) ms out) 0%Z = val m.
+Proof.
+  induction ms as [|m0 ms IH]; intros out m Hnd Hlt Hin; [destruct Hin|].
+  cbn [fold_left]. cbn [map] in Hnd. inversion Hnd as [|? ? Hnotin Hnd']; subst.
+  destruct (Nat.eq_dec (pos m) (pos m0)) as [Heq|Hneq].
+  - rewrite Heq, fold_upd_untouched by exact Hnotin.
+    rewrite nth_list_upd_eq by (apply Hlt; left; reflexivity).
+    destruct Hin as [->|Hin]; [reflexivity|].
+    exfalso. apply Hnotin. rewrite <- Heq. apply in_map. exact Hin.
+  - destruct Hin as [->|Hin]; [congruence|].
+    apply IH; [exact Hnd'| |exact Hin].
+    intros k Hk. rewrite list_upd_length. apply Hlt. right. exact Hk.
+Qed.
+
+Lemma map_nth_seq {A} (l : list A) d : map (fun m => nth m l d) (seq 0 (length l)) = l.
+Proof.
+  induction l as [|x l IH]; [reflexivity|].
+  cbn [length seq map nth]. f_equal. rewrite <- seq_shift, map_map. exact IH.
+Qed.
+
+Lemma nth_map_lt {A B} (f : A -> B) l m d d' : m < length l -> nth m (map f l) d' = f (nth m l d).
+Proof. intros Hm. rewrite (nth_indep _ d' (f d)) by (rewrite map_length; exact Hm). apply map_nth. Qed.
+
 Lemma select_cols_length cols row : length (select_cols cols row) = length cols.
-Proof. TODO. Qed.
+Proof.
+  unfold select_cols. rewrite fold_upd_length with (pos := fun m => nth m (argsort_nat cols) 0)
+    (val := fun m => nth m (map (fun c => nth c row 0%Z) (map (fun i => nth i cols 0) (argsort_nat cols))) 0%Z).
+  rewrite !map_length. apply argsort_nat_length.
+Qed.
+
 Lemma select_cols_order cols row j : NoDup cols -> (forall c, In c cols -> c < length row) ->
   j < length cols -> nth j (select_cols cols row) 0%Z = nth (nth j cols 0) row 0%Z.
-Proof. TODO. Qed.
+Proof.
+  intros _ _ Hj. unfold select_cols.
+  set (idx := argsort_nat cols).
+  set (read := map (fun c => nth c row 0%Z) (map (fun i => nth i cols 0) idx)).
+  pose proof (argsort_nat_perm cols) as Hperm. fold idx in Hperm.
+  pose proof (argsort_nat_length cols) as Hlen. fold idx in Hlen.
+  assert (Hjin : In j idx).
+  { apply (Permutation_in _ Hperm). apply in_seq. lia. }
+  destruct (In_nth _ _ 0 Hjin) as (m & Hm & Hmj).
+  rewrite <- Hmj at 1.
+  rewrite (fold_upd_written (fun m => nth m idx 0) (fun m => nth m read 0%Z)).
+  - unfold read. rewrite map_map.
+    rewrite (nth_map_lt _ idx m 0) by exact Hm. rewrite Hmj. reflexivity.
+  - rewrite <- Hlen, map_nth_seq. apply (Permutation_NoDup Hperm), seq_NoDup.
+  - intros k Hk. apply in_seq in Hk. unfold read. rewrite !map_length.
+    assert (Hin : In (nth k idx 0) idx) by (apply nth_In; lia).
+    apply (Permutation_in _ (Permutation_sym Hperm)) in Hin. apply in_seq in Hin. lia.
+  - apply in_seq. lia.
+Qed.
 
 (* PRIORITY 4: limits: pieces of exactly the listed lengths whose concatenation is the
    whole file; inconsistent limits are rejected *)
 Lemma split_limits_spec {A} (data : list A) ls parts : split_limits data (Some ls) = Ok parts ->
   map (@length A) parts = ls /\ concat parts = data.
-Proof. TODO. Qed.
+Proof.
+  unfold split_limits. destruct (Nat.eqb_spec (list_sum ls) (length data)) as [Heq|Hne]; intros H; [|discriminate].
+  inversion H; subst parts. split; [apply split_lens_lengths|apply split_lens_concat]; lia.
+Qed.
 Lemma split_limits_reject {A} (data : list A) ls : list_sum ls <> length data ->
   split_limits data (Some ls) = Err ValueError.
-Proof. TODO. Qed.
+Proof.
+  intros Hne. unfold split_limits. destruct (Nat.eqb_spec (list_sum ls) (length data)); [contradiction|reflexivity].
+Qed.
 Lemma split_limits_none {A} (data : list A) : split_limits data None = Ok [data].
-Proof. TODO. Qed.
+Proof. reflexivity. Qed.
 
 (* PRIORITY 5: the row limit keeps a prefix *)
 Lemma opentxt_nrows cs s k t : parse_table cs s = Ok t -> opentxt cs s None (Some k) = Ok (firstn k t).
-Proof. TODO. Qed.
+Proof. intros H. unfold opentxt. rewrite H. reflexivity. Qed.
 
 (* PRIORITY 6: microstate reader: requested integer dtype (16 bit by default), values that fit
    are returned unchanged, non-integer dtypes and multi-column files are rejected *)
 Lemma openmicrostates_dtype cs s lim d dt parts : openmicrostates cs s lim d = Ok (dt, parts) ->
   dt = match d with Some x => x | None => Int16 end /\ dt <> Float64.
-Proof. TODO. Qed.
+Proof.
+  intros H. unfold openmicrostates, bind in H.
+  destruct d as [[]|]; try discriminate;
+    destruct (parse_table cs s) as [t|]; try discriminate;
+    destruct (split_limits t lim); try discriminate;
+    destruct t as [|r t']; try discriminate;
+    destruct (Nat.eqb (length r) 1); try discriminate;
+    inversion H; subst; split; (reflexivity || discriminate).
+Qed.
 Lemma openmicrostates_float cs s lim : openmicrostates cs s lim (Some Float64) = Err TypeError.
-Proof. TODO. Qed.
+Proof. reflexivity. Qed.
 Lemma dtype_wrap_fits z : (-32768 <= z < 32768)%Z -> dtype_wrap Int16 z = z.
-Proof. TODO. Qed.
+Proof.
+  intros Hz. unfold dtype_wrap. change (2 ^ 16)%Z with 65536%Z. change (65536 / 2)%Z with 32768%Z.
+  rewrite Z.mod_small by lia. lia.
+Qed.
